@@ -172,6 +172,23 @@ def stmts(s, cx, ret, mutable, ind):
     result = (lambda e: f"pure ({e}, self)") if mutable else (lambda e: f"pure {e}")
     if s == "":
         return pad + result("()")
+    # --- `let x = self.cache.front()?;` in a method returning Option: `?` = early `return None`
+    m = re.match(r"let (\w+) = self\.cache\.front\(\)\?;", s)
+    if m:
+        if ret != "(Option β)":
+            raise TErr("`?` outside an Option-returning method")
+        cx.blockvars.add(m.group(1))
+        rest = stmts(s[m.end():], cx, ret, mutable, ind + 1)
+        return f"{pad}match self.cache.head? with\n{pad}| none => pure none\n{pad}| some {m.group(1)} =>\n{rest}"
+    # --- tail `self.cache.get(A.checked_sub(B)? as usize).cloned()`  (u64 -> usize is lossless on the 64-bit targets)
+    m = re.fullmatch(r"self\.cache \.get\((.*)\.checked_sub\((.*)\)\? as usize\) \.cloned\(\)", s) or \
+        re.fullmatch(r"self\.cache\.get\((.*)\.checked_sub\((.*)\)\? as usize\)\.cloned\(\)", s)
+    if m:
+        if ret != "(Option β)" or mutable:
+            raise TErr("cache.get(..) tail outside `block`")
+        a, b = operand(m.group(1), cx), operand(m.group(2), cx)
+        return (f"{pad}(do match (if {b} ≤ {a} then some ({a} - {b}) else none) with\n{pad}    | none => pure none\n"
+                f"{pad}    | some i => pure (self.cache[i]?))")
     # --- let-else on self.last
     m = re.match(r"let Some\((\w+)\) = &self\.last else \{ return (\w+) \};", s)
     if m:
@@ -348,6 +365,7 @@ def gen(src):
     V = "{β : Type} (num : β → Nat) (bn : Nat → Except String Nat) (self : BlockStore β)"
     fn("BlockStore", "truncate_cache", [], "Unit", True, f"truncate_cache' {V}", lambda cx: None)
     out.append(f"def truncate_cache {V} : Except String (BlockStore β) :=\n  truncate_cache' num bn self >>= fun r => pure r.2\n")
+    fn("BlockStore", "block", ["n"], "(Option β)", False, f"block {V} (n : Nat)", lambda cx: cx.numvars.add("n"))
     fn("BlockStore", "try_push", ["block"], "Bool", True, f"try_push {V} (block : β)",
        lambda cx: cx.blockvars.add("block"))
     fn("BlockStore", "update_persisted", ["persisted"], "Unit", True, f"update_persisted {V} (persisted : BlockStoreState)",
